@@ -66,3 +66,41 @@ package scheduler
 //@   calls ContainerQueue.Unlock#2: set lastUnlocked = $0
 //@   loop 3: exhaustive
 //@   at loop 3 back: assert ctr.State == arvados.ContainerStateLocked ==> lastUnlocked == ctr.UUID
+
+//@ iface WorkerPool.CountWorkers
+//@   modifies nothing
+
+// sync: the reconciliation table, one obligation per action.  A lingering
+// process of a finalized, on-hold or re-queued container is killed, never
+// restarted; containers are forgotten only when no process is running; sync
+// never starts or creates anything.
+//@ func Scheduler.sync property C14 safety -bounds
+//@   only calls: WorkerPool.CountWorkers WorkerPool.Running ContainerQueue.Entries ContainerQueue.Forget Scheduler.cancel Scheduler.kill Scheduler.requeue
+//@   calls Scheduler.cancel#1: requires ent.Container.State == arvados.ContainerStateRunning && !running && !anyUnknownWorkers && $1 == uuid
+//@   calls Scheduler.cancel#2: requires ent.Container.State == arvados.ContainerStateRunning && running && !time.Time.IsZero(exited) && time.Time.After(qUpdated, exited) && $1 == uuid
+//@   calls Scheduler.kill#1: requires ent.Container.State == arvados.ContainerStateRunning && running && ent.Container.Priority == 0 && $1 == uuid
+//@   calls Scheduler.kill#2: requires (ent.Container.State == arvados.ContainerStateComplete || ent.Container.State == arvados.ContainerStateCancelled) && running && $1 == uuid
+//@   calls ContainerQueue.Forget#1: requires (ent.Container.State == arvados.ContainerStateComplete || ent.Container.State == arvados.ContainerStateCancelled) && !running && $0 == uuid
+//@   calls Scheduler.kill#3: requires ent.Container.State == arvados.ContainerStateQueued && running && $1 == uuid
+//@   calls ContainerQueue.Forget#2: requires ent.Container.State == arvados.ContainerStateQueued && !running && ent.Container.Priority == 0 && $0 == uuid
+//@   calls Scheduler.requeue#1: requires ent.Container.State == arvados.ContainerStateLocked && running && !time.Time.IsZero(exited) && time.Time.After(qUpdated, exited) && $1 == ent
+//@   calls Scheduler.kill#4: requires ent.Container.State == arvados.ContainerStateLocked && running && time.Time.IsZero(exited) && ent.Container.Priority == 0 && $1 == uuid
+//@   calls Scheduler.requeue#2: requires ent.Container.State == arvados.ContainerStateLocked && !running && ent.Container.Priority == 0 && $1 == ent
+//@   calls Scheduler.kill#5: requires !has(qEntries, uuid) && $1 == uuid
+//@   at loop 1 back: assert (ent.Container.State == arvados.ContainerStateComplete || ent.Container.State == arvados.ContainerStateCancelled || ent.Container.State == arvados.ContainerStateQueued) && running ==> nkill == nkill0 + 1
+//@   ghost nkill int = 0
+//@   ghost nkill0 int = 0
+//@   at assign running#2: set nkill0 = nkill
+//@   calls Scheduler.kill#*: set nkill = nkill + 1
+
+// kill / cancel / requeue act only while holding the per-container operation lock.
+//@ func Scheduler.uuidLock trusted
+//@   modifies Scheduler.uuidOp mem:string
+//@ func Scheduler.uuidUnlock trusted
+//@   modifies Scheduler.uuidOp
+//@ func Scheduler.kill property C14
+//@   ghost locked bool = false
+//@   calls Scheduler.uuidLock#1: requires $0 == uuid
+//@   calls Scheduler.uuidLock#1: set locked = $r
+//@   calls WorkerPool.KillContainer#1: requires locked && $0 == uuid
+//@   calls WorkerPool.ForgetContainer#1: requires locked && $0 == uuid
